@@ -16,7 +16,7 @@ from props.c06_pool import POOL
 PROP = "C06"
 MC = os.path.join(ROOT, "spec/mc/MC_Transformer.tla")
 TRACE = os.path.join(ROOT, "spec/trace/Trace_C06.tla")
-ALL_SS = ["S1", "S2", "S3", "S4", "S5", "S6", "S7", "SD1", "SD2", "SE", "SU", "SM", "SX", "SV"]
+ALL_SS = ["S1", "S2", "S3", "S4", "S5", "S6", "S7", "S8", "SD1", "SD2", "SE", "SU", "SM", "SX", "SV"]
 ALL_SRC = ["D1", "D2", "DX"]
 CLASSES = {"ok", "terminated", "xpathError", "extError", "encoding", "unserializable", "missingDoc",
            "malformedSS", "invalidSS", "malformedSrc"}
@@ -297,7 +297,8 @@ def constants(tier):
                 ("roles", dict(mc, hist=3, maxh=0)),
                 ("vars", dict(mc, hist=5, compile=["S5", "S6"], parse=[], inline_ss=["S5", "S6", "S1"], inline_src=["D1"])),
                 ("fmt", dict(mc, hist=4, compile=["SD1", "SD2"], parse=[], inline_ss=["S1", "S3", "SD1", "SD2"], inline_src=["D1"], vals=[])),
-                ("sort", dict(mc, hist=5, compile=["S7"], parse=[], inline_ss=["S7", "S2"], inline_src=["D1", "D2"]))]
+                ("sort", dict(mc, hist=5, compile=["S7"], parse=[], inline_ss=["S7", "S2"], inline_src=["D1", "D2"])),
+                ("rtf", dict(mc, hist=5, compile=["S8"], parse=[], inline_ss=["S8", "S3"], inline_src=["D1", "D2"]))]
         kd = dict(mc, hist=4, compile=["S3"], parse=["D1"], inline_ss=["S1", "S2", "S4"], inline_src=["D1"], vals=["str", "num", "obj"])
     else:
         mc = dict(hist=6, maxh=2, compile=["S2", "S3", "S4", "SX"], parse=["D1", "D2", "DX"], inline_ss=NO_FMT, inline_src=ALL_SRC, vals=["str", "num", "obj"])
@@ -307,7 +308,8 @@ def constants(tier):
                 ("roles", dict(mc, hist=4, maxh=0)),
                 ("vars", dict(mc, hist=7, maxh=1, compile=["S5", "S6"], parse=["D1"], inline_ss=["S5", "S6", "S1", "S2"], inline_src=["D1", "D2"])),
                 ("fmt", dict(mc, hist=5, maxh=2, compile=["SD1", "SD2"], parse=["D1"], inline_ss=["S1", "S3", "SD1", "SD2"], inline_src=["D1", "D2"], vals=["str"])),
-                ("sort", dict(mc, hist=6, maxh=1, compile=["S7"], parse=["D1"], inline_ss=["S7", "S2", "S3"], inline_src=["D1", "D2"]))]
+                ("sort", dict(mc, hist=6, maxh=1, compile=["S7"], parse=["D1"], inline_ss=["S7", "S2", "S3"], inline_src=["D1", "D2"])),
+                ("rtf", dict(mc, hist=6, maxh=1, compile=["S8"], parse=["D1"], inline_ss=["S8", "S2", "S3"], inline_src=["D1", "D2"]))]
         kd = dict(mc, hist=5, maxh=1, compile=["S3"], parse=["D1"], inline_ss=["S1", "S2", "S4"], inline_src=["D1"])
     return mc, gens, kd
 
